@@ -70,6 +70,9 @@ func c19ReadLog(p string) []string {
 }
 
 func TestVerifC19(t *testing.T) {
+	// the agent's own environment may already hold a variable of that name: hooks must still get the real store path
+	os.Setenv("WHAWTY_AUTH_STORE", "/inherited/from/the/environment") //nolint:errcheck
+	defer os.Unsetenv("WHAWTY_AUTH_STORE")                            //nolint:errcheck
 	R := vr.New("C19", "hooks", "(A) hooks directories with every combination of {hidden, exec bit, type file / symlink-to-exec / symlink-to-noexec / dangling symlink / directory / fifo, directory world-writable (also made world-writable after start)}: after one notification exactly the eligible files run, with argv [update] and the store path in WHAWTY_AUTH_STORE (scripts log themselves); (B) notification timing patterns (0,1,2,3,40 per rate-limit interval, pairs just before / after the timer, a second change arriving while a round is being started) against an in-package HooksCaller with a 120-250 ms rate limit, judged on the sequence-numbered event log: every send is followed by a start of every eligible hook, a round only directly after notify(pending=0) or timer(pending>1), at most two rounds between two timer events, the timer never early; (C) agent wiring: exactly one notification per successful add/update/set-admin and per remove, none for failed operations, store path updated on reload; (D) a never-ending hook does not delay requests (thorough: it is killed not earlier than 60 s after its start). Non-trivial: every pattern / directory layout; distinct by layout or (pattern, observed event sequence)")
 	defer R.Write()
 	rng := R.Rand("c19")
@@ -320,6 +323,7 @@ type c19Pattern struct {
 	Name   string
 	Gaps   []float64 // gap before each send, in units of the rate limit
 	During bool      // second send while the first round is being started (many hooks)
+	Reload int       // if > 0: after this many sends the caller is told a new store path (what a SIGHUP reload does)
 }
 
 func c19Timing(R *vr.Result, rng *rand.Rand) {
@@ -336,6 +340,9 @@ func c19Timing(R *vr.Result, rng *rand.Rand) {
 		{Name: "two-then-one-after-trailing-round", Gaps: []float64{0, 0.5, 0.6}},
 		{Name: "two-then-two", Gaps: []float64{0, 0.5, 0.7, 0.2}},
 		{Name: "steady-half-interval", Gaps: []float64{0, 0.5, 0.5, 0.5, 0.5, 0.5, 0.5}},
+		{Name: "two-in-interval-then-reload", Gaps: []float64{0, 0.3}, Reload: 2},
+		{Name: "three-in-interval-reload-in-between", Gaps: []float64{0, 0.2, 0.2}, Reload: 2},
+		{Name: "one-then-reload", Gaps: []float64{0}, Reload: 1},
 		{Name: "second-while-round-starting", Gaps: []float64{0, 0}, During: true},
 		{Name: "burst-while-round-starting", Gaps: []float64{0, 0, 0, 0}, During: true},
 	}
@@ -399,6 +406,10 @@ func c19TimingOnce(R *vr.Result, rng *rand.Rand, id string, p c19Pattern, orders
 		}
 		sends = append(sends, send{c19Seq(), time.Now()})
 		h.Notify <- true
+		if p.Reload == i+1 {
+			time.Sleep(L / 10)
+			h.NewStore <- "/store-after-reload"
+		}
 	}
 	// quiescence: a timer event after the last send and no pending work (watchdog 20 x L)
 	if len(sends) > 0 {
